@@ -2,6 +2,7 @@
 import re
 import json
 import common as C
+import metamorph
 
 LEVEL = "proof"
 
@@ -75,6 +76,15 @@ def build_cases(rng, thorough):
         cases.append((f'def {nm}():\n    """0.0.0.0 /tmp/x {nm} = secret"""\n    return 1\n', set(), dict(pos="docstring", name=nm, lit="")))
         cases.append((f'"""module docstring password /tmp/x"""\n', set(), dict(pos="module-docstring", name=nm, lit="")))
         cases.append((f"'/tmp/expr_statement'\n", set(), dict(pos="expr-statement-string", name=nm, lit="")))
+    # docstrings of every kind of scope (seeded change C16-m8 re-derived "is a docstring" and forgot `async def`); a string expression statement that
+    # is not the first statement is not a docstring in Python's sense — the property does not say, bandit exempts it too: no expectation there
+    for text in ("/tmp/scratch is used", "0.0.0.0", "/var/tmp", "/dev/shm/x"):
+        q = '"""' + text + '"""'
+        for tmpl, pos in (("async def co_():\n    {q}\n    return 1\n", "docstring-async-def"), ("class K_:\n    {q}\n    x = 1\n", "docstring-class"),
+                          ("class K_:\n    async def m_(self):\n        {q}\n", "docstring-async-method"), ("class K_:\n    def m_(self):\n        {q}\n", "docstring-method"),
+                          ("def outer_():\n    async def inner_():\n        {q}\n    return inner_\n", "docstring-nested-async"), ("{q}\nx = 1\n", "docstring-module"),
+                          ("def f_():\n    {q}\n", "docstring-def"), ("async def g_():\n    {q}\n    async with a_ as b_:\n        pass\n", "docstring-async-def")):
+            cases.append((tmpl.format(q=q), set(), dict(pos=pos, name="-", lit=text)))
     # B104 / B108 on their own
     for lit, ids in (("0.0.0.0", {"B104"}), ("0.0.0.0 ", set()), ("10.0.0.0", set()), ("/tmp", {"B108"}), ("/tmp/x", {"B108"}), ("/var/tmp/y", {"B108"}),
                      ("/dev/shm/z", {"B108"}), ("/tmpx", {"B108"}), ("x/tmp", set()), ("/var/tm", set()), ("/opt/scratch", set())):
@@ -101,7 +111,7 @@ def chmod_cases(rng, thorough):
     return out
 
 
-def run(res, ctx):
+def _run_main(res, ctx):
     rng = C.rng_for(res.seed, "C16")
     thorough = res.tier == "thorough"
     res.rule = ("identifiers (20 matching, 17 near-matching, case variants) as plain names, attributes, subscript keys, keyword names, parameter names (incl. positional-only) "
@@ -223,3 +233,9 @@ def run(res, ctx):
         scratch.close()
         if d is not None:
             d.close()
+
+
+def run(res, ctx):
+    _run_main(res, ctx)
+    # the neighbourhood of every construct of bandit's example files (harness/metamorph.py): model vs implementation on this family's ids
+    metamorph.family(res, ctx, C, {"B103", "B104", "B105", "B106", "B107", "B108"}, 700, 4000)
